@@ -1,6 +1,7 @@
 package main
 
 import (
+	"strings"
 	"fmt"
 	"go/constant"
 	"go/token"
@@ -13,7 +14,7 @@ func init() {
 	register(&Rule{ID: "E-ASSERT", Props: []string{"C03"}, Floor: 100,
 		Doc: "every type assertion in API-reachable code is comma-ok (or part of a type switch), unless its operand is read from a map allocated in the same function all of whose stored values have the asserted static type",
 		Run: ruleEAssert})
-	register(&Rule{ID: "E-SLICE2", Props: []string{"C03", "C12"}, Floor: 1,
+	register(&Rule{ID: "E-SLICE2", Props: []string{"C03", "C12", "C01"}, Floor: 1,
 		Doc: "every slice expression x[lo:hi] of the evaluator with two non-constant bounds is dominated by a comparison that orders exactly those two values (lo <= hi)",
 		Run: ruleESlice2})
 	register(&Rule{ID: "E-CONSTINDEX", Props: []string{"C03"}, Floor: 8,
@@ -22,7 +23,7 @@ func init() {
 	register(&Rule{ID: "E-REFLECT-NIL", Props: []string{"C03"}, Floor: 1,
 		Doc: "every method call on an interface-typed field inside an Error() method (reflect.Type, wrapped error) is dominated by a non-nil test of the same field, or every construction site stores a value known to be non-nil",
 		Run: ruleEReflectNil})
-	register(&Rule{ID: "E-DIVISOR", Props: []string{"C03", "C12"}, Floor: 2,
+	register(&Rule{ID: "E-DIVISOR", Props: []string{"C03", "C12", "C01"}, Floor: 2,
 		Doc: "every integer division or remainder with a non-constant divisor in the evaluator has a divisor that is non-zero by a dominating sign/zero fact, or derives from the step of a slice node, whose constructions are all dominated by the step != 0 edge in the parser (P-STEP-ZERO)",
 		Run: ruleEDivisor})
 	register(&Rule{ID: "P-STEP-ZERO", Props: []string{"C12", "C08", "C03"}, Floor: 1,
@@ -774,6 +775,18 @@ func mayBeLocalNil(v ssa.Value, seen map[ssa.Value]bool) string {
 			}
 		}
 	case *ssa.Call:
+		// a repository helper returning the container: nil when one of its returns hands out a possibly nil value
+		if callee := calleeOf(&x.Call); callee != nil && len(callee.Blocks) > 0 && callee.Pkg != nil && strings.HasPrefix(callee.Pkg.Pkg.Path(), modPath) {
+			if _, isTuple := x.Type().(*types.Tuple); !isTuple {
+				for _, ret := range returnsOf(callee) {
+					if len(ret.Results) == 1 {
+						if w := mayBeLocalNil(ret.Results[0], seen); w != "" {
+							return w + " returned by " + callee.Name()
+						}
+					}
+				}
+			}
+		}
 		if builtinName(&x.Call) == "append" {
 			// append(nil, zero elements...) is nil
 			if w := mayBeLocalNil(x.Call.Args[0], seen); w != "" {
